@@ -10,7 +10,9 @@ from sa import AnalysisError
 from sa.index import load, PACKAGES
 from sa.report import Report, load_known, match_known
 from sa.rules import PROPERTIES, Ctx
-from sa.twins import TRANSFORMS
+from sa.twins import TRANSFORMS as _T, OPTIONAL_TRANSFORMS
+TRANSFORMS = dict(_T)
+ALL_TRANSFORMS = dict(_T, **OPTIONAL_TRANSFORMS)
 
 ROOT = os.environ.get('VERIF_REPO', '/repo')
 
@@ -61,7 +63,7 @@ def main():
                     if f.endswith('.py'):
                         full = os.path.join(dp, f)
                         src = open(full).read()
-                        open(full, 'w').write(TRANSFORMS[t](src))
+                        open(full, 'w').write(ALL_TRANSFORMS[t](src))
                         n += 1
         print('applied', t, 'to', n, 'files under', d)
         return
@@ -75,7 +77,7 @@ def main():
     src = sources()
     jobs = []
     for t in names:
-        fn = TRANSFORMS[t]
+        fn = ALL_TRANSFORMS[t]
         whole = {}
         for path, s in src.items():
             if path.startswith('rsocket/cli'):
